@@ -57,6 +57,7 @@ type stream struct {
 	run        func(c *caseCtx)
 	exhaustive bool                  // the stream enumerates a finite space completely
 	floors     map[string]int64      // counters that must reach this minimum (per run), else inconclusive
+	service    bool                  // cases run through the service's own handler (decideHandler of main.go, in-process) after a short history of other requests
 	watchdog   time.Duration         // generous wall-clock limit per unit; expiry alone is never a violation
 	serial     bool                  // run the units of this stream one at a time (they spawn their own processes)
 	note       string
@@ -223,6 +224,14 @@ func findStream(p *propDef, name string) *stream {
 func runCase(p *propDef, s *stream, idx int, res *workerResult) {
 	c := &caseCtx{prop: p.id, stream: s.name, idx: idx, seed: *fSeed, tier: *fTier, res: res}
 	c.rng = rand.New(rand.NewSource(caseSeed(*fSeed, p.id+"/"+s.name, idx)))
+	if s.service {
+		// the case is: a short history of unrelated requests (accepted and rejected, every optional field present in
+		// some and absent in others), then the property's own requests - all through decideHandler. The history belongs
+		// to the case (derived from its seed), so a replay of the case alone sends it again.
+		viaService = true
+		serviceHistory(rand.New(rand.NewSource(caseSeed(*fSeed, p.id+"/"+s.name+"/history", idx))), idx, res)
+		defer func() { viaService = false }()
+	}
 	s.run(c)
 }
 
